@@ -159,6 +159,40 @@ def ctr_counter_advance(chk):
     chk.floor('CTR counter evaluations', n, 12)
 
 
+def poly1305_wrap(chk):
+    """Poly1305 works modulo 2^130 - 5: a carry that leaves the top limb has weight 2^130 = 5 (mod p) and must re-enter limb 0
+    multiplied by 5.  Decided on the symbolic form of the value of limb 0 that is compared with p's low limb in the final
+    conditional subtraction (after `opt -O2` has unrolled the carry loop): limb0 + 5 * (carry out of the top limb)."""
+    from .. import sym, oblig, fold
+    R = 'poly1305-carry-wrap'
+    n = 0
+    for src, fn in (('src/symcipher/poly1305_ctmul.c', 'br_poly1305_ctmul_run'), ('src/symcipher/poly1305_ctmul32.c', 'br_poly1305_ctmul32_run')):
+        U = oblig.funit(src)
+        if fn not in U.funcs:
+            raise AnalysisBroken('%s vanished' % fn)
+        Fo = U.optimise(fn, [], ('poly1305_inner', 'GT', 'EQ', 'MUX'))
+        S = sym.Sym(Fo)
+        gts = [c for c in fold._reach_insts(Fo) if c['op'] == 'call' and c.get('callee') == 'GT' and c['ops'][1]['k'] == 'c']
+        if len(gts) != 1:
+            raise AnalysisBroken('%s: the comparison of limb 0 with the low limb of p was not found' % fn)
+        t = S.sym(gts[0]['ops'][0])
+        # and(aff{limb0: 1, carry: k}, mask)
+        inner = None
+        if t[0] == 'aff' and len(t[1]) == 1 and t[1][0][0][0] == 'op' and t[1][0][0][1] == 'and':
+            inner = next((x for x in t[1][0][0][2:] if x[0] == 'aff' and x[1]), None)
+        if inner is None:
+            raise AnalysisBroken('%s: unexpected shape of limb 0: %s' % (fn, sym.show(t)[:200]))
+        coefs = sorted(v for k, v in inner[1] if isinstance(k, tuple) and k[0] == 'op' and k[1] == 'lshr')
+        n += 1
+        inst = '%s: the carry out of the top limb re-enters limb 0 multiplied by 5' % fn
+        if coefs == [5]:
+            chk.ok(R, inst, src)
+        else:
+            chk.violation(R, inst, src, 'limb 0 becomes limb0 + %s * carry: a value 2^130 + e after the block loop is reduced to e + %s instead of e + 5, '
+                          'so the tag is wrong for those accumulator values' % (coefs, coefs), key='%s %s' % (R, fn))
+    chk.floor('Poly1305 finalisations', n, 2)
+
+
 def run(tier):
     chk = report.Check('C12', tier,
                        'Constant tables of the symmetric primitives compared with values generated from their standards (FIPS 197 S-box, inverse '
@@ -264,4 +298,5 @@ def run(tier):
     chk.floor('block classes', n, 20)
     counter_carry_chains(chk)
     ctr_counter_advance(chk)
+    poly1305_wrap(chk)
     return chk.finish()
